@@ -158,6 +158,29 @@ def ob_date_carry(y: int, m: int, d: int) -> Optional[bool]:
     return same(DATE(y, m, d), ref)
 
 
+def ob_date_carry_far(y: int, m: int, d: int) -> Optional[bool]:
+    """day counts beyond a year carry across year ends (leap and common) exactly"""
+    if not (1901 <= y <= 9990 and 1 <= m <= 12 and 330 <= d <= 420):
+        return None
+    return same(DATE(y, m, d), _serial_of(y, m, d))
+
+
+def ob_eomonth_1900(n: int, k: int) -> Optional[bool]:
+    """around Excel's fictitious 1900-02-29: EOMONTH(n,k) is a month's last day (the next day is a 1st) not before
+    the start month when k >= 0, and day 60 is the end of February 1900"""
+    if not (1 <= n <= 130 and -1 <= k <= 2):
+        return None
+    r = EOMONTH(n, k)
+    idx = YEAR(n) * 12 + MONTH(n) + k
+    if idx < 1900 * 12 + 1:          # before January 1900: #NUM! (or serial 0 = "1900-01-00" for December 1899)
+        return isinstance(r, str) or (r == 0 and idx == 1900 * 12)
+    if isinstance(r, str):
+        return False
+    if not (DAY(r + 1) == 1 and (k < 0 or r >= n)):
+        return False
+    return YEAR(r) * 12 + MONTH(r) == idx
+
+
 def ob_date_carry_known(y: int, m: int, d: int) -> Optional[bool]:
     """the same law inside the known region d <= 0 (expected to be refuted while the finding is open)"""
     if not (1905 <= y <= 9990 and -40 <= m <= 60 and -40 <= d <= 0):
@@ -265,6 +288,8 @@ def obligations(tier):
     add("date_carry_known", "ob_date_carry_known", (), 120, known="C17-day-borrow", group="date")
     add("date_carry_zero_31", "ob_date_carry_zero_31", (), 300 * T, group="date")
     add("date_range", "ob_date_range", (), 300 * T, group="date")
+    add("date_carry_far", "ob_date_carry_far", (), 400 * T, group="date")
+    add("eomonth_1900", "ob_eomonth_1900", (), 400 * T, group="months")
     add("eomonth_low", "ob_eomonth_low", (), 300 * T, group="months")
     add("yearfrac_range", "ob_yearfrac_range", (), 200, group="yearfrac")
     for basis in (2, 3):
